@@ -12,7 +12,31 @@ pub fn run(tier: Tier, seed: u64) {
     crate::for_each_n!(tier, unit, seed);
 }
 
+/// the same in-memory request object, verified once, must still be judged afresh under another challenge / key
+fn reverify<const N: usize>(seed: u64) {
+    sx::begin(vec![], DrawMode::NonDegenerate, seed);
+    let mut rng = SeedRng::new(seed);
+    let kp = KeyPair::<N>::new(&mut rng);
+    let kp2 = KeyPair::<N>::new(&mut rng);
+    let b = SignatureRequestProofBuilder::<N>::generate_proof_commitments(&mut rng, Message::new(sym_scalars("m")), &[None; N], kp.public_key());
+    let c = ChallengeBuilder::new().with(&b).finish();
+    let proof = b.generate_proof_response(c);
+    let c2 = sym_challenge("other");
+    let first = proof.verify_knowledge_of_opening(kp.public_key(), c).is_some();
+    let again_other_challenge = proof.verify_knowledge_of_opening(kp.public_key(), c2).is_some();
+    let again_other_key = proof.clone().verify_knowledge_of_opening(kp2.public_key(), c).is_some();
+    let again_same = proof.verify_knowledge_of_opening(kp.public_key(), c).is_some();
+    if !first || !again_same || again_other_challenge || again_other_key {
+        eng::finding("C08 verdict-depends-on-history", &format!("N={}: request verified under (key, c): {}; then under another challenge: {}; under another key: {}; again under (key, c): {}", N, first, again_other_challenge, again_other_key, again_same), None, json!({"kind":"model"}));
+    }
+    if !matches!(eng::witness(&format!("C08 N={}: re-verification of one request object under another challenge / key is refused (witness)", N), &eng::hyps(), &F::True), Tri::Yes) {
+        eng::inconclusive("C08 reverify: no confirmed witness");
+    }
+    eng::path_done();
+}
+
 fn unit<const N: usize>(seed: u64) {
+    reverify::<N>(seed);
     honest::<N>(seed);
     only_from_verifying_proof::<N>(seed);
     tampered::<N>(seed);
